@@ -763,6 +763,7 @@ KNOWN_CRASH = [
     ('TypeError', '__init__:unexpected keyword', 'smarts-unsupported-kwarg-typeerror'),
     ('IndexError', 'smarts', 'smarts-cx-radical-index'),
     ('AttributeError', 'smarts', 'smarts-stereo-on-bond-list'),
+    ('KeyError', 'smarts', 'smarts-stereo-popitem-keyerror'),
     ('KeyError', '_tokenize', 'smarts-not-any-bond-keyerror'),
     ('TypeError', '__init__:invalid order', 'smarts-double-ring-mark-typeerror'),
     ('IndexError', '_tokenize', 'smarts-leading-ring-mark-indexerror'),
@@ -1332,11 +1333,11 @@ def run(ck):
     tied = True
     import time
     timing = {}
-    for fn in (corr_match, corr_from_atom, corr_api, corr_bonds, corr_full, corr_labels, corr_parse, corr_tokens, corr_bond_spellings):
+    for fn in (corr_match, corr_from_atom, corr_api, corr_bonds, corr_full, corr_cx, corr_labels, corr_parse, corr_tokens, corr_bond_spellings):
         t0 = time.time()
         tied = fn(ck) and tied
         timing[fn.__name__] = round(time.time() - t0, 1)
-    for fn in (search_stream, check_bond_contexts, search_stereo, search_rdkit):
+    for fn in (search_stream, check_bond_contexts, search_stereo, search_cx, search_rdkit):
         t0 = time.time()
         fn(ck)
         timing[fn.__name__] = round(time.time() - t0, 1)
@@ -1464,11 +1465,11 @@ def stereo_smarts(rng, n):
 
 def corr_full(ck):
     rng = random.Random(f'{ck.seed}:c08-full')
-    fixed = ['F/C=C/F', 'F/C=C\\F', 'F\\C=C\\F', 'F\\C=C/F', 'FC=CF', 'C/C=,#C/C', 'C/C=,#C\\C', 'C/C!-C/C', 'C/C!-C\\C', 'C/C=;@C/C', 'C/C=;!@C\\C',
+    fixed = ['', 'C/C=C(/C)C(/C)=C/C', 'F/C(=C/F)=C/F', 'F/C(/Cl)=C/F', 'FC(/Cl)=C/F', 'F/C=C(/Cl)\\F', 'F/C=C/F', 'F/C=C\\F', 'F\\C=C\\F', 'F\\C=C/F', 'FC=CF', 'C/C=,#C/C', 'C/C=,#C\\C', 'C/C!-C/C', 'C/C!-C\\C', 'C/C=;@C/C', 'C/C=;!@C\\C',
              'C/C=C/C=C/C', 'C/C=C/C-C/C=C/C', 'F/C=C/1.F1', 'C1/C=C\\CCCCC1', '[C@](F)(Cl)(Br)I', '[C@@;D3](F)Cl', '[A@]F', '[C,N@]F', '[M@]', 'C/C', 'C/C=C',
              '[C:1][C:1]', '[C:1][N:2]', 'C11', 'C1C1', 'C=1C=1', 'C%12CC%12', 'c1ccccc1', 'C(C)(C)C', 'C.C', '[C;M]C', 'C-,=C', 'C~C', 'C!-;@C', '[C+-]', 'C!', '(C)C']
     texts = fixed + stereo_smarts(rng, 250 if ck.tier == 'quick' else 3000) + gen_smarts(rng, 150 if ck.tier == 'quick' else 2000)
-    texts = [t for t in dict.fromkeys(texts) if t and all(32 < ord(c) < 127 and c != '"' for c in t)]
+    texts = [t for t in dict.fromkeys(texts) if all(32 < ord(c) < 127 and c != '"' for c in t)]
     bt = Batches('c08_full')
     bt_imports = None
     for i in range(0, len(texts), 20):
@@ -1495,6 +1496,77 @@ def corr_full(ck):
     return good
 
 
+CX_BLOCKS = ['|^1:0|', '|^1:0,2|', '|^2:1|', '|^7:0|', '|^8:0|', '|^0:0|', '|^1:5|', '|^1:0,|', '|^1:,0|', '|^1:0^1:1|', '^1:0', '|^1:0', '^1:0|', '|', '||',
+             '|^1:a|', '|^3:0,1,2|', '|^1:00|', '|^1:01,1|', '|^1:0|x', '|x^1:1y^2:0,3|', '|^1:1,1|', '|^1:2,9|', '|^^1:0|', '|^1:0,1,2,3,4,5|', '|$;;$|', '|^1:|']
+
+
+def corr_cx(ck):
+    """smarts(smr + ' ' + cx): CXSMARTS radical blocks, well-formed and malformed, on atoms of every class"""
+    rng = random.Random(f'{ck.seed}:c08-cx')
+    smrs = ['C', 'CN', 'CNO', '[C;D2]C', '[A]C', '[C,N]O', '[M]', '[M]C', 'C[M;D15]', '[C;D15]', 'C(C)C', 'C1CC1', 'C=,#C', '[13C@+;h1]F', 'C/C=C/C', '[C;M]C', 'C!', '[Xx]C'] + \
+        gen_smarts(rng, 40 if ck.tier == 'quick' else 600)
+    smrs = [t for t in dict.fromkeys(smrs) if t and '|' not in t and all(32 < ord(c) < 127 and c != '"' for c in t)]
+    pairs = [(s_, c) for s_ in smrs[:18] for c in CX_BLOCKS] + [(s_, rng.choice(CX_BLOCKS)) for s_ in smrs[18:] for _ in range(2)]
+    bt = Batches('c08_cx')
+    for i in range(0, len(pairs), 25):
+        part = pairs[i:i + 25]
+        rows = [real_full(s_ + ' ' + c) for s_, c in part]
+        for (s_, c), r in zip(part, rows):
+            ck.case(('cx', s_, c), nontrivial=not r.startswith('!') and '|T|' in r)
+            ck.count('cx:' + (r[:2] if r.startswith('!') else 'radical' if '|T|' in r else 'ok'))
+            if r.startswith('!') and r not in ('!A', '!S', '!V'):
+                report_crash(ck, s_ + ' ' + c)
+        bt.add(f'b_cx {lst([tup(cstr(s_), "(Some " + cstr(c) + ")") for s_, c in part])} {cstr(chr(10).join(rows))}', (part, rows))
+    size = sum(len(c) for c in bt.cases) / max(len(bt.cases), 1)
+    ok, failing, log = coqcases.run_cases(bt.name, IMPORTS + ' SmartsFull', bt.cases, shard=max(10, int(120000 / max(size, 1))), timeout=900)
+    bad = [bt.meta[i] for i in failing]
+    good = conclude(ck, "smarts(smr + ' ' + cx) == smarts_cx (CXSMARTS radical blocks, well-formed and malformed: radical flags, index check, exception class)", bt, ok, bad, log)
+    if not good:
+        for part, _ in bad[:10]:
+            for s_, c in part:
+                check_cx(ck, s_, c)
+    return good
+
+
+def check_cx(ck, smr, cx):
+    """independent reading of a radical block: exactly the atoms whose positions the block names are radicals"""
+    from chython import smarts
+    try:
+        base = smarts(smr)
+    except Exception:
+        return
+    n = len(base)
+    want = None
+    if cx.startswith('|') and cx.endswith('|'):
+        idx = [int(i) for x in re.findall(r'\^[1-7]:[0-9]+(?:,[0-9]+)*', cx) for i in x[3:].split(',')]
+        want = 'reject' if any(i >= n for i in idx) else sorted(set(idx))
+    else:
+        want = []
+    try:
+        q = smarts(smr + ' ' + cx)
+        got = sorted(i for i, (_, a) in enumerate(q.atoms()) if getattr(a, 'is_radical', False))
+    except ValueError:
+        got = 'reject'
+    except Exception:
+        report_crash(ck, smr + ' ' + cx)
+        return
+    from chython.periodictable import AnyMetal
+    if want != 'reject' and any(isinstance(a, AnyMetal) for i, (_, a) in enumerate(base.atoms()) if i in want):
+        want = 'reject'
+    ck.case(('cx-oracle', smr, cx), nontrivial=bool(want) and want != 'reject')
+    if got != want:
+        ck.counterexample('smarts-cx-radicals', 'the CXSMARTS radical block does not mark exactly the named atoms', {'smarts': smr + ' ' + cx}, got, want,
+                          'independent reading of the block',
+                          replay_py=f"from chython import smarts\nq=smarts({smr + ' ' + cx!r}); print([a.is_radical for _, a in q.atoms()])")
+
+
+def search_cx(ck):
+    rng = random.Random(f'{ck.seed}:c08-cx-search')
+    for smr in ['C', 'CN', 'CNO', '[C;D2]C(C)C', '[A]C', '[C,N]O', '[M]C', 'C1CC1', 'C=,#C']:
+        for cx in CX_BLOCKS:
+            check_cx(ck, smr, cx)
+
+
 def search_stereo(ck, extra=()):
     """cis/trans marks: a marked SMARTS double bond matches exactly the molecule bonds of that configuration.
     Reference: RDKit HasSubstructMatch(useChirality=True) of the plain '=' pattern, combined with ring membership for ;@ / ;!@"""
@@ -1513,6 +1585,23 @@ def search_stereo(ck, extra=()):
             for m1, m2 in (('/', '/'), ('/', '\\'), ('\\', '\\'), ('\\', '/'), ('', '')):
                 for mid, ring in (('=', None), ('=,#', None), ('!-', None), ('=;@', True), ('=;!@', False)):
                     queries.append((x, m1, mid, m2, y, ring))
+    tri_q = ['F/C(/Cl)=C/F', 'F/C(/Cl)=C\\F', 'FC(/Cl)=C/F', 'Cl/C(/F)=C/F', 'F/C=C(/Cl)\\F', 'F/C(Cl)=C/F', 'C(/F)(/Cl)=C/F', 'F/C=C(/Cl)F']
+    tri_m = ['F/C(/Cl)=C/F', 'F/C(/Cl)=C\\F', 'FC(Cl)=CF', 'F/C=C(/Cl)F', 'F/C=C(\\Cl)F']
+    for text in tri_q:
+        rq = Chem.MolFromSmarts(text)
+        try:
+            q = smarts(text)
+        except Exception:
+            report_crash(ck, text)
+            continue
+        for s in tri_m:
+            want = Chem.MolFromSmiles(s).HasSubstructMatch(rq, useChirality=True)
+            got = q.is_substructure(smiles(s))
+            ck.case(('stereo-branch', text, s), nontrivial=want)
+            if got != want:
+                ck.counterexample('smarts-stereo-branch-mark-inverted', 'a SMARTS with a direction mark on a branch of a double-bond atom matches the other configuration',
+                                  {'smarts': text, 'smiles': s}, got, want, 'RDKit HasSubstructMatch(useChirality=True)',
+                                  replay_py=f"from chython import smiles, smarts\nprint(smarts({text!r}).is_substructure(smiles({s!r})))")
     rng = random.Random(f'{ck.seed}:c08-stereo')
     if ck.tier == 'quick':
         queries = rng.sample(queries, 90)
